@@ -41,9 +41,13 @@ package dhash
 //@   ensures content(result) == bcat(content(dest), sha(content(payload)))
 //@   ensures dest == nil ==> isfresh(result)
 
+// The second hash of every multihash - whatever its own code - is the
+// dbl-sha2-256 (0x56) multihash of SHA-256(secondHashPrefix ++ mh).
 //@ func SecondMultihash
 //@   property C12
 //@   pure
+//@   ensures content(result) == mhEnc(sha(bcat(content(secondHashPrefix), content(mh))), 86)
+//@   ensures isfresh(result)
 
 //@ func deriveKey
 //@   property C12
